@@ -6,6 +6,11 @@
   `Monitors.lean`: a left fold over the exchange log (oldest first) and a verdict on the result; one
   `def …Ok : Monitor` per conjunct and `ok` their conjunction.  `Props/C04NR.lean`, `Props/C11NR.lean`
   prove them true of every run of the model.
+
+  Also here (no Mathlib, iterated by the driver through `MonitorsNR.all`): `Mon.C11H`, the one clause of C11
+  — `attempts` = number of invocations — for the runs `Mon.C11` does not judge because an attempt hook or
+  the abort predicate RAISED (e.g. a start hook that aborts the run with `AbortRetryError`).
+  `Props/C11H.lean` proves it true of every run of the model.
 -/
 import Redress.Monitors
 
@@ -207,6 +212,57 @@ def ok : Monitor := fun cfg e t r =>
 
 end C11NR
 
+/-! ### C11H — `attempts` = number of invocations, also when an attempt hook ABORTS the run -/
+
+namespace C11H
+
+/-- An error that `execute()`'s `except` ladder hands to its `except Exception` arm, i.e. treats as the
+    FAILURE of the current attempt: an `Exception` that is neither an `AbortRetryError` (ends the run as
+    ABORTED) nor a `RetryExhaustedError` (re-raised).  `CancelledError`, `KeyboardInterrupt`, `SystemExit`,
+    `GeneratorExit` are not `Exception`s (re-raised). -/
+def isFault (x : Exn) : Bool := x.isException && !x.isAbort && !x.isExhausted
+
+/-- `on_attempt_start` or `abort_if` — the two callbacks `execute()` runs in an attempt BEFORE it
+    invokes the operation — answered by raising such an error -/
+def isPreOpFault (x : Req × Ans) : Bool :=
+  (match x.1 with
+   | .attemptStart _ | .abortIf => true
+   | _ => false)
+  && (match x.2 with
+      | .raise e _ => isFault e
+      | _ => false)
+
+/-- Some such error is FOLLOWED, later in the log, by an invocation of the operation.  (`execute()` counts
+    the attempt whose start hook / abort poll failed as a failed attempt in which the operation was never
+    invoked — DESIGN §6.2 — so once the loop goes on and invokes the operation again, `attempts`, which is
+    the attempt NUMBER of the last invocation, is ahead of the number of invocations by design.  As long as
+    no invocation follows, the two still agree and the monitor judges the run.) -/
+def preOpFault : Trace → Bool
+  | [] => false
+  | x :: rest => (isPreOpFault x && rest.any (fun y => isOp y.1)) || preOpFault rest
+
+/--
+`execute()`'s outcome reports `attempts` = the number of times the operation was invoked.
+
+Guards (the monitor is `true` without looking otherwise):
+* `e.isExecute` — `execute()` (`call()` has no outcome);
+* `hasLoop cfg e` — there is a retry loop (a `Policy` without a retry component: `Mon.C11NR`);
+* `!preOpFault t` — no invocation follows a start hook / abort predicate that raised a plain `Exception`.
+
+NOT guarded (unlike `Mon.C11`): an attempt hook or `abort_if` raising `AbortRetryError`, a cancellation
+kind or `RetryExhaustedError`; an end hook raising anything; a start hook / `abort_if` raising a plain
+`Exception` after which the operation is not invoked again; a call rejected by the breaker (`attempts = 0`,
+no invocation).
+-/
+def ok : Monitor := fun cfg e t r =>
+  if e.isExecute && hasLoop cfg e && !preOpFault t then
+    (match r with
+     | .outcome o _ => o.attempts == opCount t
+     | _ => true)
+  else true
+
+end C11H
+
 end Mon
 
 namespace MonitorsNR
@@ -215,7 +271,8 @@ open Mon
 
 /-- registry in the shape of `Monitors.all`: (property id, monitor name, monitor) -/
 def all : List (String × String × Monitor) :=
-  [ ("C04", "no_retry_call", C04NR.ok), ("C11", "no_retry_execute", C11NR.ok) ]
+  [ ("C04", "no_retry_call", C04NR.ok), ("C11", "no_retry_execute", C11NR.ok),
+    ("C11", "attempts_eq_invocations", C11H.ok) ]
 
 end MonitorsNR
 end Redress
